@@ -219,8 +219,8 @@ theorem goEnv_letters (u : Word → Word) :
 
 /-- within a line nothing is deferred and neither the line number nor the document moves -/
 theorem step_inline (E : Env) (n : Bool) (s : State) (r : Rune) (hr : r ≠ nl)
-    (hd : s.deferredEOL = false) (hw : s.deferredWord = false) :
-    (step E n s r).deferredEOL = false ∧ (step E n s r).deferredWord = false ∧
+    (hd : s.deferredEOL = false) (hw : s.deferredLines = 0) :
+    (step E n s r).deferredEOL = false ∧ (step E n s r).deferredLines = 0 ∧
       (step E n s r).line = s.line ∧ (step E n s r).doc = s.doc := by
   rw [step_eq]
   simp only [hr, if_false]
@@ -239,8 +239,8 @@ theorem step_inline (E : Env) (n : Bool) (s : State) (r : Rune) (hr : r ≠ nl)
       simp [hd, hw]
 
 theorem scanFrom_inline (E : Env) (n : Bool) (rs : List Rune) (s : State) (hr : nl ∉ rs)
-    (hd : s.deferredEOL = false) (hw : s.deferredWord = false) :
-    (scanFrom E n s rs).deferredEOL = false ∧ (scanFrom E n s rs).deferredWord = false ∧
+    (hd : s.deferredEOL = false) (hw : s.deferredLines = 0) :
+    (scanFrom E n s rs).deferredEOL = false ∧ (scanFrom E n s rs).deferredLines = 0 ∧
       (scanFrom E n s rs).line = s.line ∧ (scanFrom E n s rs).doc = s.doc := by
   induction rs generalizing s with
   | nil => exact ⟨hd, hw, rfl, rfl⟩
@@ -268,7 +268,7 @@ theorem notice_line' (E : Env) (s : State) (hc : Clean s) (n : List Rune) (hn : 
     (hne : lineBufOf E (scanFrom E true s n) ≠ [])
     (hi : E.ignorable (joinLine (lineBufOf E (scanFrom E true s n))) = true) :
     scanFrom E true s (n ++ [nl]) =
-      { obuf := [], linebuf := [], line := s.line + 1, deferredEOL := false, deferredWord := false,
+      { obuf := [], linebuf := [], line := s.line + 1, deferredEOL := false, deferredLines := 0,
         doc := { s.doc with copyrights := s.doc.copyrights ++ [s.line] } } := by
   obtain ⟨_, _, c3, c4⟩ := hc
   obtain ⟨i1, i2, i3, i4⟩ := scanFrom_inline E true n s hn c3 c4
